@@ -100,6 +100,21 @@ def body_multiget(items, raw, c_b, dup):
             body, exp_etag = exp
             ok = ok and data == body.decode("utf-8") and etag == exp_etag
             ncls += 1
+    # the result must not depend on what was answered earlier in the process either: the OTHER kind of
+    # multiget for its own existing member still carries its data
+    ons = CALNS if card else CARDNS
+    oel = Wd.ET.Element("{%s}%s-multiget" % (ons, "calendar" if card else "addressbook"))
+    oprop = Wd.ET.SubElement(oel, "{DAV:}prop")
+    odata = "{%s}%s-data" % (ons, "calendar" if card else "address")
+    Wd.ET.SubElement(oprop, odata)
+    opath = (mweb.CAL + "/a.ics") if card else (mweb.AB + "/c.vcf")
+    Wd.ET.SubElement(oel, "{DAV:}href").text = P + opath
+    r2 = mweb.call(app, "REPORT", (mweb.CAL if card else mweb.AB) + "/", xml=oel, content_type="text/xml",
+                   headers=[("Depth", "0")], prefix=prefix)
+    if r2.kind != "multistatus" or len(r2.statuses) != 1:
+        return (False, "other-kind-failed")
+    g = mweb.call(app, "GET", opath)
+    ok = ok and mweb.prop_text(r2.statuses[0], odata) == g.body.decode("utf-8")
     return (ok, "hits:%d" % ncls)
 
 
